@@ -334,6 +334,7 @@ def judge(sp, cfg, res, want=None):
                                 err = models.check_throughput(row[col], er[1], er[2], st[col], it.binary)
                                 if err:
                                     add("C20", "throughput_cell", "%s: %s" % (where, err))
+                                    add("C18", "throughput_cell_e2e", "%s (bytes format %s as configured): %s" % (where, "binary" if it.binary else "decimal", err))
                                     add("C15", "counter_value", "%s: counter kind %d should be %d (%s): %s" % (where, er[1], er[2], ex["eff"], err))
                                     break
                         elif er[0] == "plain":
@@ -347,6 +348,7 @@ def judge(sp, cfg, res, want=None):
                                 errs_ = [models.check_bytes(row[col], v, it.binary) for v in er[1][col]]
                                 if all(errs_):
                                     add("C20", "alloc_bytes_cell", "%s: column %s: %s" % (where, HEADINGS[col], errs_[0]))
+                                    add("C18", "bytes_cell_e2e", "%s (bytes format %s as configured): column %s: %s" % (where, "binary" if it.binary else "decimal", HEADINGS[col], errs_[0]))
                                     break
 
     # ---- thread branches (C15) ------------------------------------------------------------
